@@ -21,6 +21,15 @@ CHECKS = {
         },
         'label': 'C14.decode_total,C14.delta_total,C14.rt,C14.delta_rt,C08.codec_total',
     },
+    'iq_model': {
+        'dir': 'native/witness', 'bin': 'verif-witness',
+        'bound': {
+            'quick': '20000 seeded random operation sequences (length 4..214) x 2 predictors on the real InputQueue against the reference model',
+            'thorough': '400000 seeded random operation sequences (length 4..214) x 2 predictors on the real InputQueue against the reference model',
+        },
+        'label': 'C01.q_lookup,C01.q_final,C01.q_detect,C03.confirmed,C03.predicted,C11.fill,C11.add',
+        'args': {'quick': ['20000'], 'thorough': ['400000']},
+    },
 }
 
 
@@ -40,7 +49,7 @@ def run_checks(repo, names, tier, scratch, seed):
             out['checks'].append(rec)
             continue
         exe = os.path.join(tgt, 'release', c['bin'])
-        cmd = [exe, tier]
+        cmd = [exe] + c.get('args', {}).get(tier, [tier])
         out['cmds'].append('VERIF_REPO_SRC=%s/src cargo build --release --offline (in %s) && %s %s' % (repo, c['dir'], c['bin'], tier))
         try:
             p = subprocess.run(cmd, env=env, capture_output=True, text=True, timeout=7200)
@@ -50,6 +59,22 @@ def run_checks(repo, names, tier, scratch, seed):
             out['checks'].append(rec)
             continue
         m = re.search(r'RESULT evals=(\d+) ok_decodes=(\d+) violations=(\d+)', p.stdout)
+        mw = re.search(r'RESULT tried=(\d+) found=(\d+)', p.stdout)
+        if mw and not m:
+            rec['wall_s'] = time.time() - t0
+            rec['evaluations'] = int(mw.group(1))
+            if mw.group(2) == '0':
+                rec['status'] = 'verified'
+                rec['samples'] = ['(random operation sequences; a disagreement would be printed as WITNESS ...)']
+            else:
+                w = re.search(r'^WITNESS (.*)$', p.stdout, re.M)
+                wm = re.search(r'^WITNESS-MSG (.*)$', p.stdout, re.M)
+                rec['status'] = 'failed'
+                rec['msg'] = (wm.group(1) if wm else 'model disagreement')[:300]
+                rec['witness'] = {'confirmed': True, 'kind': 'operation sequence on the real InputQueue', 'sequence': w.group(1) if w else '', 'disagreement': wm.group(1) if wm else ''}
+                rec['output'] = p.stdout[-1500:]
+            out['checks'].append(rec)
+            continue
         rec['wall_s'] = time.time() - t0
         rec['samples'] = re.findall(r'^SAMPLE (.*)$', p.stdout, re.M)
         if not m:
